@@ -11,6 +11,14 @@ from harness import arrays as AR
 
 THEOREMS = {
     'RsomeV.Props.C05': [
+        'RsomeV.C05.ravel_unravel', 'RsomeV.C05.unravel_ravel', 'RsomeV.C05.ravel_lt',
+        'RsomeV.C05.bcastFlat_spec', 'RsomeV.C05.bcastFlat_spec_right', 'RsomeV.C05.broadcastShapes_dims',
+        'RsomeV.C05.transposeSrc_spec', 'RsomeV.C05.transposeSrc_involutive', 'RsomeV.C05.transposeSrc_perm',
+        'RsomeV.C05.matmulPairs_2d', 'RsomeV.C05.matmulPairs_batch', 'RsomeV.C05.matmulPairs_vec_left',
+        'RsomeV.C05.matmulPairs_vec_right', 'RsomeV.C05.matmulPairs_vec_vec',
+        'RsomeV.C05.pyRange_spec', 'RsomeV.C05.sliceIdx_lt', 'RsomeV.C05.sliceIdx_eq_pyRange', 'RsomeV.C05.sliceIdx_spec',
+        'RsomeV.C05.normAxis_spec', 'RsomeV.C05.sumAxisGroups_flat', 'RsomeV.C05.sumAxisGroups_partition',
+        'RsomeV.C05.diagIdx_spec', 'RsomeV.C05.diagIdx_order', 'RsomeV.C05.swapLastSrc_spec', 'RsomeV.C05.concatSrc_spec',
     ],
 }
 RULE = ("random expression trees of depth <= 5 over 1-2 decision arrays and 1-2 random arrays of rank 0-3 with every operator of "
@@ -109,15 +117,159 @@ def matmul_probe(ctx):
 
 def run(ctx):
     matmul_probe(ctx)
-    for k in range(ctx.n(700, 25000)):
+    for k in range(ctx.n(2500, 60000)):
         seed = int(ctx.rng.integers(2 ** 31))
         tree_case(ctx, seed, int(ctx.rng.integers(1, 6)))
     ctx.search_cases = ctx.evaluations
     components(ctx)
 
 
+def _rows(M, first=0):
+    """per-row sorted (column - first) lists of a CSR matrix"""
+    import scipy.sparse as sp
+    M = sp.csr_matrix(M)
+    return [[int(c) - first for c in M.indices[M.indptr[i]:M.indptr[i + 1]]] for i in range(M.shape[0])]
+
+
 def components(ctx):
-    pass
+    """(A) Lean index maps vs real NumPy; (B) Lean index maps vs the selector matrices rsome builds"""
+    from harness import nd_cases
+    from rsome import ro
+    from rsome.subroutines import sparse_mul, sp_matmul, sp_lmatmul, sp_trans
+    import rsome as rso
+    r = ctx.rng
+    # ---- (A) ---------------------------------------------------------------------------------
+    cases = nd_cases.gen_cases(int(r.integers(2 ** 31)), ctx.n(40, 1500))
+    outs = C.lean_run([c[0] for c in cases])
+    for (req, exp), out in zip(cases, outs):
+        ctx.corr('NdArray model vs NumPy: ' + req['op'], req, exp, out)
+        ctx.count('nd:' + req['op'])
+    # ---- (B) ---------------------------------------------------------------------------------
+    reqs, codes, descs = [], [], []
+
+    def rshape(maxrank=3, mind=1):
+        return [int(v) for v in r.integers(mind, 4, int(r.integers(0, maxrank + 1)))]
+
+    for _ in range(ctx.n(120, 4000)):
+        kind = str(r.choice(['mul', 'matmul', 'lmatmul', 'trans', 'getitem', 'sum', 'concat', 'diag']))
+        m = ro.Model()
+        try:
+            if kind == 'mul':
+                t = rshape()
+                sa = [d if r.random() < 0.6 else 1 for d in t][int(r.integers(0, len(t) + 1)):]
+                sb = [d if r.random() < 0.6 else 1 for d in t][int(r.integers(0, len(t) + 1)):]
+                x = m.dvar(tuple(sb)).to_affine()
+                nd = (np.arange(int(np.prod(sa, dtype=int))) + 1.0).reshape(sa)
+                S = sparse_mul(nd, x)
+                S = S.tocsr()
+                code = {"ia": [int(v) - 1 for v in S.data], "ib": [int(c) for c in S.indices]}
+                reqs.append({"op": "nd_bcast", "a": sa, "b": sb}); codes.append(code); descs.append({"selector": "sparse_mul", "a": sa, "b": sb})
+            elif kind in ('matmul', 'lmatmul'):
+                n_, m_, p_ = int(r.integers(1, 4)), int(r.integers(1, 4)), int(r.integers(1, 4))
+                t = rshape(maxrank=2)
+                ba = [d if r.random() < 0.6 else 1 for d in t][int(r.integers(0, len(t) + 1)):]
+                bb = [d if r.random() < 0.6 else 1 for d in t][int(r.integers(0, len(t) + 1)):]
+                a = ba + [m_, n_]; b = bb + [n_, p_]
+                u = r.random()
+                if u < 0.15:
+                    a = [n_]
+                elif u < 0.3:
+                    b = [n_]
+                shape = (np.zeros(a) @ np.zeros(b)).shape
+                if kind == 'matmul':      # ndarray(a) @ affine(b)
+                    x = m.dvar(tuple(b)).to_affine()
+                    nd = (np.arange(int(np.prod(a, dtype=int))) + 1.0).reshape(a)
+                    S = sp_matmul(nd, x, shape).tocsr()
+                    pairs = [[[int(S.data[k]) - 1, int(S.indices[k])] for k in range(S.indptr[i], S.indptr[i + 1])] for i in range(S.shape[0])]
+                else:                     # affine(a) @ ndarray(b)
+                    x = m.dvar(tuple(a)).to_affine()
+                    nd = (np.arange(int(np.prod(b, dtype=int))) + 1.0).reshape(b)
+                    S = sp_lmatmul(nd, x, shape).tocsr()
+                    pairs = [[[int(S.indices[k]), int(S.data[k]) - 1] for k in range(S.indptr[i], S.indptr[i + 1])] for i in range(S.shape[0])]
+                if len(shape) == 0:
+                    continue      # both operands 1-D: the code returns csr_matrix(ndarray) (a plain dot product)
+                code = {"shape": [int(v) for v in shape], "pairs": pairs}
+                reqs.append({"op": "nd_matmul", "a": a, "b": b}); codes.append(code); descs.append({"selector": "sp_" + kind, "a": a, "b": b})
+            elif kind == 'trans':
+                s_ = rshape(maxrank=3)
+                x = m.dvar(tuple(s_)).to_affine()
+                S = sp_trans(x).tocsr()
+                code = {"shape": list(reversed(s_)), "src": [int(c) for c in S.indices]}
+                reqs.append({"op": "nd_transpose", "shape": s_}); codes.append(code); descs.append({"selector": "sp_trans", "shape": s_})
+            elif kind == 'sum':
+                s_ = rshape(maxrank=3)
+                if not s_:
+                    continue
+                ax = int(r.integers(-len(s_), len(s_)))
+                x = m.dvar(tuple(s_))
+                e = x.to_affine().sum(axis=ax)
+                code = {"shape": [int(v) for v in e.shape], "groups": [sorted(g) for g in _rows(e.linear, x.first)]}
+                reqs.append({"op": "nd_sum_axis", "shape": s_, "axis": ax}); codes.append(code); descs.append({"selector": "Affine.sum", "shape": s_, "axis": ax})
+            elif kind == 'concat':
+                sa = rshape(maxrank=3)
+                if not sa:
+                    continue
+                ax = int(r.integers(0, len(sa)))
+                sb = list(sa); sb[ax] = int(r.integers(1, 4))
+                x = m.dvar(tuple(sa)); y = m.dvar(tuple(sb))
+                e = rso.concat((x, y), axis=ax)
+                src = []
+                for row in _rows(e.linear):
+                    c = row[0]
+                    src.append([0, c - x.first] if c < y.first else [1, c - y.first])
+                code = {"shape": [int(v) for v in e.shape], "src": src}
+                reqs.append({"op": "nd_concat", "a": sa, "b": sb, "axis": ax}); codes.append(code); descs.append({"selector": "concat", "a": sa, "b": sb, "axis": ax})
+            elif kind == 'diag':
+                rows, cols = int(r.integers(1, 5)), int(r.integers(1, 5))
+                k = int(r.integers(-3, 4))
+                if len(np.diag(np.zeros((rows, cols)), k)) == 0:
+                    continue
+                x = m.dvar((rows, cols))
+                e = rso.diag(x, k)
+                code = {"idx": [row[0] for row in _rows(e.linear, x.first)]}
+                reqs.append({"op": "nd_diag", "rows": rows, "cols": cols, "k": k}); codes.append(code); descs.append({"selector": "Affine.diag", "rows": rows, "cols": cols, "k": k})
+            elif kind == 'getitem':
+                s_ = rshape(maxrank=3)
+                if not s_:
+                    continue
+                x = m.dvar(tuple(s_))
+                ix = []
+                per_axis = []
+                for n_ in s_:
+                    if r.random() < 0.3:
+                        i = int(r.integers(-n_, n_)); ix.append(i); per_axis.append(('int', i, n_))
+                    else:
+                        a_ = r.choice([None, 0, 1, -1, -n_, n_ - 1, n_ + 2, -n_ - 2]); b_ = r.choice([None, n_, n_ - 1, -1, 1, 0, n_ + 3, -n_ - 1]); c_ = r.choice([None, 1, 2, -1, -2, 3])
+                        sl = slice(None if a_ is None else int(a_), None if b_ is None else int(b_), None if c_ is None else int(c_))
+                        ix.append(sl); per_axis.append(('slice', sl, n_))
+                ref = np.arange(int(np.prod(s_))).reshape(s_)[tuple(ix)]
+                if ref.size == 0:
+                    continue
+                e = x[tuple(ix)].to_affine()
+                got = [row[0] for row in _rows(e.linear, x.first)]
+                # the Lean model computes every per-axis slice; the row-major product of the per-axis lists is the gather
+                sub = [{"op": "nd_slice", "n": n_, "start": v.start, "stop": v.stop, "step": v.step} for kind_, v, n_ in per_axis if kind_ == 'slice']
+                souts = C.lean_run(sub) if sub else []
+                lists = []; si = 0
+                for kind_, v, n_ in per_axis:
+                    if kind_ == 'int':
+                        lists.append([v % n_])
+                    else:
+                        lists.append(souts[si]['idx']); si += 1
+                import itertools
+                strides = [int(np.prod(s_[i + 1:], dtype=int)) for i in range(len(s_))]
+                model = [sum(i * st for i, st in zip(combo, strides)) for combo in itertools.product(*lists)]
+                ctx.corr('Affine.__getitem__ (basic slicing) vs Lean sliceIdx', {"shape": s_, "index": AR.index_repr(tuple(ix))},
+                         {"gather": got, "shape": [int(v) for v in e.shape]}, {"gather": model, "shape": [int(v) for v in ref.shape]})
+                ctx.count('sel:getitem')
+                continue
+        except Exception as ex:
+            ctx.count('selector-error:' + kind + ':' + type(ex).__name__)
+            continue
+    outs = C.lean_run(reqs)
+    for rq, code, desc, out in zip(reqs, codes, descs, outs):
+        ctx.corr('selector ' + desc['selector'] + ' vs Lean ' + rq['op'], desc, code, out, list(code.keys()))
+        ctx.count('sel:' + desc['selector'])
 
 
 def replay(rp):
